@@ -137,5 +137,26 @@ CHECKS = {
           "interleavings is not decided.",
   "note": "Trusted: clang 14 CFG; the bounded queue's compensating batch operations (C01) deliver each slot to exactly one callback.",
   "technique": "static analysis: role/sibling agreement of callbacks (resolved callees in lambda bodies), fall-off-end CFG rule, exactly-once counting, who-may-call pairing"},
+ "C07": {
+  "text": "Decides on the three executors: every type-erased task is invoked inside a live RunnerScope of the executing executor; stop() "
+          "clears the flag, joins the balancer, then pushes one STOP per worker (same container bounds the marker loop and the join loop), "
+          "then joins; the destructor stops; the worker switch handles every TaskType enumerator, invokes FUNCTION tasks exactly once, "
+          "leaves only on STOP, and reaches the blocking global pop only after its local pop failed; execute() yields an invalid future "
+          "exactly when invoke refused, submit(CoroutineTask) binds the executor first and destroys the frame exactly on refusal; the "
+          "sleeping global pop is woken by every global push and the non-atomic local push is reachable only behind is_running_in() "
+          "through the thread-local queue. A dropped task shows only as a future that never becomes ready. That an accepted task runs "
+          "under every interleaving with steal/balance is not decided.",
+  "note": "Trusted: clang 14 CFG; std::thread; the bounded queue (C01/C02). Observation O4 (coroutine execute ignores a refused submit) is outside the quantifier and not armed.",
+  "technique": "static analysis: scope-dominance, ordering, switch exhaustiveness over the enum's enumerators, edge-guard and who-may-call pairing rules over CFG facts"},
+ "C16": {
+  "text": "Decides on ConcurrentExecutionQueue<T,S>: every value of the expected event count that can reach the consumer's exit "
+          "CAS(events: expected -> 0) was read before a poll of the queue (reaching-definitions + must-pass-through a pop), the loop "
+          "leaves only on the CAS-success edge, a failed exit CAS polls again, release/acquire on the counter; producers push before "
+          "signalling and launch a consumer exactly on fetch_add result == 0; a refused launch is rolled back by CAS to 0, -1 only after "
+          "that CAS succeeded, a failed roll-back retries the launch; the non-concurrent pop has one call site. The stranded-item window "
+          "(publish after the last empty poll, before the counter reset) and launch failures are interleaving- and fault-dependent. "
+          "Per-producer order and exclusivity of the consume function at run time are not decided.",
+  "note": "Trusted: clang 14 CFG; Executor::submit semantics (0 = accepted).",
+  "technique": "static analysis: reaching-definitions + must-pass-through, edge-guard and memory-order rules over CFG facts"},
 }
 NOT_APPLICABLE = {("C%02d" % i): PENDING for i in range(1, 21) if ("C%02d" % i) not in CHECKS}
